@@ -21,9 +21,6 @@ Proof.
   destruct (frun_op root o); cbn [omap out_state]; apply IH.
 Qed.
 
-Definition flat_state (path : bytes) (ops : list fop) : state :=
-  fst (replay [] (ONew path :: map (to_op 0) ops)).
-
 Lemma flat_state_eq : forall path ops, is_valid_path path = true ->
   flat_state path ops = [(path, Top (frun empty_node ops))].
 Proof.
@@ -121,9 +118,6 @@ Proof. exact listen_pats. Qed.
 
 (* ---- any trie (mounted nodes included): the handler returned is that of a most specific
         matching registered pattern; nothing is returned only if nothing matches ---- *)
-Definition wild_handled (root : node) : Prop :=
-  forall p m, reach root p m -> ends_full p -> node_hs m <> None.
-
 Lemma lookup_any_trie_pf : forall root path name sub,
   strip_path path name = SName sub -> wild_handled root ->
   match get_handler_node path root name with
